@@ -26,7 +26,7 @@ r = subprocess.run(["git", "-C", WT, "apply", "--3way", os.path.abspath(os.path.
 if r.returncode: sys.exit("REJECT: patch does not apply on HEAD: " + r.stderr[-500:])
 subprocess.run(["git", "-C", WT, "reset", "-q"], check=True)
 rc, out = demo(); log["demo_patched"] = rc
-if rc != 1: sys.exit(f"REJECT: demo exits {rc} with the patch (want 1)\n{out}")
+if rc == 0: sys.exit(f"REJECT: demo exits 0 with the patch (want non-zero)\n{out}")
 log["demo_output"] = out[-300:]
 if not skip_suite:
     want = set(json.load(open("/root/.vp/BASELINE.json"))["stable_pass"])
